@@ -483,6 +483,14 @@ func (p *pristine) apply(st *dirState, op Op, seed int64) error {
 			nv = segment.MaxEntrySize + 1
 		case "u32max":
 			nv = 0xffffffff
+		case "u32wrap8":
+			nv = 0xfffffff8 // offset + 8 + len (+ padding) wraps to the same frame in 32-bit arithmetic
+		case "u32wrap16":
+			nv = 0xfffffff0
+		case "i32max":
+			nv = 0x7fffffff
+		case "i32min":
+			nv = 0x80000000
 		default:
 			return fmt.Errorf("SetLen: unknown value %q", op.V)
 		}
